@@ -1271,4 +1271,168 @@ theorem reachH_runSched (g : Graph) (ncls : Nat) (store : List (String × List (
   | nil => exact h
   | cons p l ih => exact ih _ (ReachH.step s p.1 p.2 fuel h)
 
+/-! ## hypotheses on the graph, decidable forms -/
+
+/-- a worker's id occurs in the names of exactly its own parsed copies (`worker.id in node.params["name"]` is the
+identity test the traversal uses) -/
+def OwnerNames (g : Graph) : Prop :=
+  ∀ w n, n < g.nodes.length → (g.node n).flat = false → (g.idIn w n = true ↔ (g.node n).owner = some w)
+
+theorem OwnerNames.uniq {g : Graph} (h : OwnerNames g) : UniqueId g := by
+  intro n hn hf v w hv hw
+  have h1 := (h v n hn hf).mp hv
+  have h2 := (h w n hn hf).mp hw
+  rw [h1] at h2
+  exact Option.some.inj h2
+
+/-- decidable form of `OwnerNames` (worker indices beyond the worker list denote the default worker `"?"`) -/
+def ownerNamesB (g : Graph) : Bool :=
+  (List.range g.nodes.length).all (fun n =>
+    (g.node n).flat ||
+      (!strIn "?" (g.node n).name &&
+       (match (g.node n).owner with | some w => decide (w < g.workers.length) | none => true) &&
+       (List.range g.workers.length).all (fun w => g.idIn w n == ((g.node n).owner == some w))))
+
+theorem ownerNamesB_sound {g : Graph} (h : ownerNamesB g = true) : OwnerNames g := by
+  intro w n hn hf
+  unfold ownerNamesB at h
+  rw [List.all_eq_true] at h
+  have := h n (List.mem_range.mpr hn)
+  simp only [hf, Bool.false_or, Bool.and_eq_true, Bool.not_eq_true', List.all_eq_true, List.mem_range, beq_iff_eq] at this
+  obtain ⟨⟨h1, h2⟩, h3⟩ := this
+  by_cases hw : w < g.workers.length
+  · have h4 := h3 w hw
+    constructor
+    · intro hi; rw [hi] at h4; simpa using h4.symm
+    · intro ho; rw [h4, ho]; simp
+  · have hwk : g.worker w = { id := "?", swarm := "?" } := by
+      unfold Graph.worker
+      rw [List.getD_eq_getElem?_getD, List.getElem?_eq_none (by omega)]; rfl
+    constructor
+    · intro hi
+      unfold Graph.idIn at hi
+      rw [hwk, h1] at hi
+      cases hi
+    · intro ho
+      rw [ho] at h2
+      simp only [decide_eq_true_eq] at h2
+      exact absurd h2 hw
+
+/-- the copies of one class are all flat or all parsed -/
+def FlatClass (g : Graph) : Prop :=
+  ∀ n, n < g.nodes.length → ∀ m, m < g.nodes.length → (g.node n).cls = (g.node m).cls → (g.node n).flat = (g.node m).flat
+
+instance (g : Graph) : Decidable (FlatClass g) := by unfold FlatClass; infer_instance
+
+/-! ## consequences of the invariant -/
+
+/-- a registered drop of a parsed class by `w`: `w`'s own copy of the class carries `w`'s `finished` mark -/
+theorem Wit.owned {g : Graph} {s : State} {w p : Nat} (hO : OwnerNames g) (hF : FlatClass g) (hp : p < g.nodes.length)
+    (hf : (g.node p).flat = false) (h : Wit g s w (g.node p).cls) :
+    ∃ p', p' < g.nodes.length ∧ (g.node p').cls = (g.node p).cls ∧ (g.node p').owner = some w ∧ (s.nd p').finished = some w := by
+  obtain ⟨p', h1, h2, h3, h4⟩ := h
+  have hf' : (g.node p').flat = false := by rw [hF p' h1 p hp h2]; exact hf
+  exact ⟨p', h1, h2, (hO w p' h1 hf').mp (relevant_nonflat h3 hf'), h4 hf'⟩
+
+/-- the `finished` mark of a worker on its own parsed copy is never overwritten -/
+theorem Trv.stable {g : Graph} {H0 : List Nat} {s : State} (hwf : GraphWF g) (hroot : (g.node g.root).flat = true)
+    (hu : UniqueId g) (t : Trv g H0 s) (v : Nat) (out : Outcome) (fuel : Nat) (p w : Nat) (hp : p < g.nodes.length)
+    (hf : (g.node p).flat = false) (h : (s.nd p).finished = some w) : ((resume g s v out fuel).1.nd p).finished = some w := by
+  rcases (resume_ok g H0 hwf hroot s v out fuel t).1.fin p with h' | ⟨_, h1, h2⟩
+  · rw [h', h]
+  · rw [h2, hu p hp hf v w (relevant_nonflat h1 hf) (t.finOwner p w hp hf h)]
+
+theorem cleanup_ready_iff (g : Graph) (s : State) (n w : Nat) :
+    isCleanupReady g s n w = true ↔
+      ∀ c ∈ (g.node n).cleanup, relevant g w c.1 = true →
+        w ∈ regWorkers (s.cr (g.node n).cls).droppedCleanup (some (g.node c.1).cls) := by
+  unfold isCleanupReady
+  rw [List.all_eq_true]
+  constructor
+  · intro h c hc hrel
+    have := h c hc
+    obtain ⟨c1, vms⟩ := c
+    simp only at this hrel ⊢
+    simpa [hrel] using this
+  · intro h c hc
+    obtain ⟨c1, vms⟩ := c
+    simp only
+    cases hrel : relevant g w c1
+    · simp
+    · have := h (c1, vms) hc hrel
+      simpa using this
+
+theorem setup_ready_iff' (g : Graph) (s : State) (n w : Nat) :
+    isSetupReady g s n w = true ↔
+      ∀ p ∈ (g.node n).setup, relevant g w p.1 = true →
+        w ∈ regWorkers (s.cr (g.node n).cls).droppedSetup (some (g.node p.1).cls) := by
+  unfold isSetupReady
+  rw [List.all_eq_true]
+  constructor
+  · intro h c hc hrel
+    have := h c hc
+    obtain ⟨c1, vms⟩ := c
+    simp only at this hrel ⊢
+    simpa [hrel] using this
+  · intro h c hc
+    obtain ⟨c1, vms⟩ := c
+    simp only
+    cases hrel : relevant g w c1
+    · simp
+    · have := h (c1, vms) hc hrel
+      simpa using this
+
+/-- the only `unset` request `sync_states` can emit: the states queued for removal, by the acting worker -/
+theorem syncStates_unset_event (g : Graph) (s : State) (n v : Nat) (rv : Option (List String)) (wid : String)
+    (reqs : List (String × String)) (sc : List String) (ok : Bool)
+    (h : Event.door wid "unset" reqs sc ok ∈ (syncStates g s n v rv).2) :
+    wid = (g.worker v).id ∧ (syncAcc (g.node n) rv).1 = true ∧ (syncAcc (g.node n) rv).2.1 = "unset" ∧
+      reqs = (syncAcc (g.node n) rv).2.2.1 := by
+  unfold syncStates at h
+  dsimp only at h
+  by_cases hc : (syncAcc (g.node n) rv).1 = true
+  · simp only [hc, Bool.not_true, Bool.false_eq_true, if_false] at h
+    by_cases ha : (syncAcc (g.node n) rv).2.1 = "unset"
+    · simp only [ha, beq_self_eq_true, if_true, List.mem_singleton, Event.door.injEq] at h
+      exact ⟨h.1, hc, ha, h.2.2.1⟩
+    · have hne : ((syncAcc (g.node n) rv).2.1 == "unset") = false := by simpa using ha
+      simp only [hne, Bool.false_eq_true, if_false, List.mem_singleton, Event.door.injEq] at h
+      simp at h
+  · have : (syncAcc (g.node n) rv).1 = false := by simpa using hc
+    simp [this] at h
+
+theorem SameNodes.unsetMode {gv g : Graph} (h : SameNodes gv g) (n : Nat) : (gv.node n).unsetMode = (g.node n).unsetMode := by
+  have := congrArg Node.unsetMode (h.node n); exact this
+theorem SameNodes.poolFilter {gv g : Graph} (h : SameNodes gv g) (n : Nat) : (gv.node n).poolFilter = (g.node n).poolFilter := by
+  have := congrArg Node.poolFilter (h.node n); exact this
+theorem SameNodes.owner {gv g : Graph} (h : SameNodes gv g) (n : Nat) : (gv.node n).owner = (g.node n).owner := by
+  have := congrArg Node.owner (h.node n); exact this
+
+theorem unsetModeOf_sameNodes {gv g : Graph} (h : SameNodes gv g) (n : Nat) (vm : String) :
+    unsetModeOf (gv.node n) vm = unsetModeOf (g.node n) vm := by
+  unfold unsetModeOf; rw [h.unsetMode]
+
+theorem isReversible_sameNodes {gv g : Graph} (h : SameNodes gv g) (n : Nat) :
+    isReversible (gv.node n) = isReversible (g.node n) := by
+  unfold isReversible
+  rw [h.objs]
+  congr 1
+  funext vm
+  rw [unsetModeOf_sameNodes h]
+
+/-- the edges of the visible graph are edges of the full graph -/
+theorem visH_setup_sub (g : Graph) (hid : List Nat) (n : Nat) (p : Nat × List String)
+    (h : p ∈ ((visH g hid).node n).setup) : p ∈ (g.node n).setup := by
+  obtain ⟨su, cl, hn, hsu, _⟩ := vis_node g { nodes := [], regs := [], workers := [], store := [], hidden := hid } n
+  unfold visH at h
+  rw [hn] at h
+  exact hsu p h
+
+theorem visH_cleanup_sub (g : Graph) (hid : List Nat) (n : Nat) (p : Nat × List String)
+    (h : p ∈ ((visH g hid).node n).cleanup) : p ∈ (g.node n).cleanup := by
+  obtain ⟨su, cl, hn, _, hcl⟩ := vis_node g { nodes := [], regs := [], workers := [], store := [], hidden := hid } n
+  unfold visH at h
+  rw [hn] at h
+  exact hcl p h
+
 end I2N.Trav
